@@ -1,5 +1,6 @@
 import AdaptiveProofs.Lemmas.L1DBounds
 import AdaptiveProofs.Lemmas.Greedy
+import AdaptiveProofs.Lemmas.L1DGreedy
 
 /-!
 # C02 — Learner1D.ask places new points where they most reduce the worst loss
@@ -86,5 +87,34 @@ theorem c02_commit_eq (s : State α) (n : Nat) :
     (ask lossFn r12 s n true).2 = ((ask lossFn r12 s n false).1.1).foldl (tellPending lossFn r12) s ∧
     (ask lossFn r12 s n true).1 = (ask lossFn r12 s n false).1 :=
   ⟨rfl, rfl, rfl⟩
+
+/-- C02.g  The allocation `ask` computes is optimal, in every state reachable by a valid history:
+the candidate intervals are the intervals between neighbouring known points and the bound intervals
+(`Cand s`), the weight `wOf` of an interval is its expected loss, or its relative width if that is
+infinite, `gOf` is the number of parts the answer divides it into (`1` = untouched).  For every other
+way `a` of distributing the same number of points, the largest rounded expected loss per part of the
+code's allocation is no larger than that of `a` (`r12` any monotone rounding; expected losses in the
+table non-negative, which holds for every non-negative loss function). -/
+theorem c02_allocation_optimal (hr : Monotone r12) {lo hi : α} (hlt : lo < hi) (factor dxEps : α)
+    (nn : Nat) (ops : List (Op α)) (hv : ValidOps lossFn r12 (init lo hi factor dxEps nn) ops)
+    (n : Nat) :
+    let s := run lossFn r12 (init lo hi factor dxEps nn) ops
+    s.data.length + s.pending.length ≠ 0 →
+    (∀ e ∈ s.lossesC, ∀ v, e.2 = .fin v → 0 ≤ v) →
+    ∀ (a : Cand s → ℕ), (∀ i, 1 ≤ a i) →
+      (∑ i, a i = ∑ i : Cand s, gOf (askQuals r12 s n) i.1) →
+      ∀ M, (∀ i : Cand s, r12 (wOf s i.1 / (a i : α)) ≤ M) →
+        ∀ i : Cand s, r12 (wOf s i.1 / (gOf (askQuals r12 s n) i.1 : α)) ≤ M := by
+  intro s hd hw a ha hsum M hM
+  obtain ⟨hb, hI⟩ := binv_run lossFn r12 hlt factor dxEps nn ops hv
+  have hts : TablesSorted r12 s := tablesSorted_run lossFn r12 lo hi factor dxEps nn ops
+  have hne : s.lossesC ≠ [] ∨ missingBounds s ≠ [] := by
+    rcases ask_proviso hI hb with h | h | h
+    · exact absurd h hd
+    · exact Or.inl h
+    · exact Or.inr h
+  have hpos : 0 < s.scaleX := by rw [hb.scaleX]; exact sub_pos.2 hb.lt
+  exact ask_greedy_optimal r12 hr s n hI hd hb.xsC_in hts (hb.lossScale.trans hb.scaleX.symm) hpos hw
+    hne a ha hsum M hM
 
 end L1D
